@@ -500,6 +500,7 @@ type vocab struct {
 	c      *Ctx
 	keep   map[string]bool
 	atomic map[string]bool
+	also   map[string]bool // symbols that make a callee worth inlining without being recorded
 }
 
 func (c *Ctx) vocab(keep []string, atomic map[string]bool) *vocab {
@@ -538,7 +539,7 @@ func (v *vocab) visit(fr *Frame, n ast.Node) string {
 
 func (v *vocab) relevant(f *Func) bool {
 	for s := range v.c.emits(f) {
-		if v.keep[s] {
+		if v.keep[s] || v.also[s] {
 			return true
 		}
 	}
